@@ -78,6 +78,7 @@ func check(prop, tier string) (code int) {
 			}
 		}()
 		f(ctx)
+		rules.Shared(ctx)
 	}
 	rules.CurGOOS, rules.CurGOARCH = os.Getenv("FV_GOOS"), os.Getenv("FV_GOARCH")
 	run()
